@@ -135,12 +135,14 @@ func main() {
 	defer run.Close()
 	var ce *cer
 	var xn *xnet
+	valSeen := map[int]bool{} // validators whose `val` op was executed (rec / sig refer to it on the model side)
 
 	exec := func(op string) {
 		f := strings.Fields(op)
 		if f[0] == "run" {
 			xn.close()
 			xn = nil
+			valSeen = map[int]bool{}
 			c := parseCfg(f)
 			run.Begin(op)
 			var err error
@@ -194,10 +196,15 @@ func main() {
 			if !okPK {
 				run.Violate("dkgrun:group_key_not_key_of_shared_secret", fmt.Sprintf("validator %d: the secret interpolated from all keystore shares does not have the lock's group public key", k))
 			}
+			valSeen[k] = true
 			run.Count("val")
 			run.Op(fmt.Sprintf("val %d %s", k, strings.Join(sks, ",")), fmt.Sprintf("x=%x pk=%s", ce.x[k][:], b01(okPK)))
 		case "rec":
 			k, _ := strconv.Atoi(f[1])
+			if !valSeen[k] { // an op list cut by the minimiser: the model has no shares for k either
+				run.Op(op, "bad-op")
+				return
+			}
 			ids := parseIDs(f[2])
 			sub := map[int]tbls.PrivateKey{}
 			pub := map[int]tbls.PublicKey{}
@@ -232,6 +239,10 @@ func main() {
 			run.Op(op, fmt.Sprintf("%x rpk=%s", rec[:], b01(okR)))
 		case "sig":
 			k, _ := strconv.Atoi(f[1])
+			if !valSeen[k] {
+				run.Op(op, "bad-op")
+				return
+			}
 			ids := parseIDs(f[2])
 			msg := unhex(f[3])
 			parts := map[int]tbls.Signature{}
@@ -293,6 +304,9 @@ func main() {
 			run.Count("xnew")
 			run.Op(op, "ok")
 		case "xinj":
+			if xn == nil { // exchangers exist from the ceremony on; `xnew` replaces them by fresh ones
+				xn = ce.xnew()
+			}
 			r, _ := strconv.Atoi(f[1])
 			s, _ := strconv.Atoi(f[2])
 			c, _ := strconv.Atoi(f[3])
@@ -302,6 +316,9 @@ func main() {
 			run.Case(fmt.Sprintf("xinj:%d:%v:%s:%s", tau, c == s+1, f[6], out))
 			run.Op(op, out)
 		case "xrun":
+			if xn == nil {
+				xn = ce.xnew()
+			}
 			tau, _ := strconv.Atoi(f[1])
 			run.Begin(op)
 			run.Count("xrun")
